@@ -223,7 +223,13 @@ def check_multi(case, out):
                 fh.write(t)
             paths.append(p_)
         dst = os.path.join(wd, 'out.x12')
-        argv = (['-e'] if eol else []) + (['-f'] if fix else []) + (['-i'] if mode == 'inplace' else []) + (['-o', dst] if mode == 'outfile' else []) + paths
+        names = list(paths)
+        if case.get('with_dir'):
+            # a directory among the names (a pattern such as in/* matches it too): it is no input, the files after it still are
+            os.mkdir(os.path.join(wd, 'archive'))
+            names.insert(1, os.path.join(wd, 'archive'))
+            out.classes.append('directory-among-the-inputs')
+        argv = (['-e'] if eol else []) + (['-f'] if fix else []) + (['-i'] if mode == 'inplace' else []) + (['-o', dst] if mode == 'outfile' else []) + names
         so, exc = run_norm(argv)
         if exc is not None:
             out.fail(core.exc_bucket(exc, 'main-multi'), core.exc_detail(exc))
@@ -353,7 +359,7 @@ def strategy(tier):
         if name != 'in.x12':
             classes.add('file-name-with-pattern-characters')
         return {'text': text, 'eol': draw(st.booleans()), 'fix': fix, 'mode': draw(st.sampled_from(['stdout', 'outfile', 'inplace'])),
-                'text2': text2, 'name': name, 'meta': {'classes': sorted(classes), 'defects': defects, 'others': others}}
+                'text2': text2, 'name': name, 'with_dir': bool(text2) and draw(st.integers(0, 2)) == 0, 'meta': {'classes': sorted(classes), 'defects': defects, 'others': others}}
 
     return gen()
 
